@@ -85,6 +85,9 @@ func (inv *authInv) classify(m *Machine, a *Action) (id, why string) {
 		if a.Sig != int(sim.SigValid) {
 			return "C10.I4.price-signature", fmt.Sprintf("the price transaction is not signed by the consensus key it names (signature kind %d)", a.Sig)
 		}
+	case a.Kind == "govSubmit" && a.Mode == 1 && a.Module != "" && a.Module != "text":
+		// a proposal may only carry messages whose signer is the governance account
+		return "C10.I5.proposal-with-foreign-authority", fmt.Sprintf("the proposal carries a parameter update of %s that names the proposer as authority", a.Module)
 	case a.Kind == "updateParams":
 		if !utils.IsMainnet(m.W.Cfg.ChainID) {
 			inv.Testnet++
